@@ -512,6 +512,7 @@ pred IsCursorKey(k rune) = k == vaxis.KeyUp || k == vaxis.KeyDown || k == vaxis.
 pred IsEditKey(k rune) = k == vaxis.KeyInsert || k == vaxis.KeyDelete || k == vaxis.KeyPgUp || k == vaxis.KeyPgDown
 
 func encodeXterm(key vaxis.Key, deckpam bool, decckm bool) string
+  mapcontents *
   requires mods: 0 <= key.Modifiers && key.Modifiers < 256
   ensures C13_fkeys:  (XM(key) == 0 && IsFKey(key.Keycode)) ==> (HostKey(result) == key.Keycode && HostMods(result) == 0)
   ensures C13_cursor: (XM(key) == 0 && IsCursorKey(key.Keycode)) ==> (HostKey(result) == key.Keycode && HostMods(result) == 0 && seqkind(result) == (decckm ? 2 : 1))
@@ -528,6 +529,7 @@ extern func (*os.File).WriteString(f, s)
 -- Update forwards one host event: a key as its xterm encoding under the child's cursor-key and keypad modes, paste
 -- brackets only when the child enabled bracketed paste, a mouse event as handleMouse says; exactly one write or none
 func (vt *Model) Update(msg vaxis.Event)
+  mapcontents *
   requires vt.pty != nil && vt.timer != nil
   requires key: typeis(msg, "vaxis.Key") ==> (0 <= unbox(msg, "vaxis.Key").Modifiers && unbox(msg, "vaxis.Key").Modifiers < 256)
   ensures C13_paste_off: ((typeis(msg, "vaxis.PasteStartEvent") || typeis(msg, "vaxis.PasteEndEvent")) && !vt.mode.paste) ==> loglen("pty") == old(loglen("pty"))
